@@ -115,7 +115,7 @@ AbortBody(p) ==
   /\ \E f \in BOOLEAN : Remove(key[p], cur[p], f) /\ f
   /\ pc' = [pc EXCEPT ![p] = "idle"]
   /\ key' = [key EXCEPT ![p] = ""] /\ cur' = [cur EXCEPT ![p] = 0]
-  /\ Lbl("Abort", p, key[p], cur[p], 0)
+  /\ Lbl("Abort", p, key[p], cur[p], 1)
   /\ UNCHANGED <<nextId, cancelled, stale, calls, wd>>
 
 Abort(p) == cancelled[p] /\ AbortBody(p)
